@@ -126,6 +126,12 @@ func c04Harness(name string, nodes []pNode, procs int, bounds []int) *harness {
 						if nodes[a].Parent >= 0 && nodes[nodes[a].Parent].Sec && st.time[nodes[a].Parent] == st.time[a] {
 							// the primary was scheduled by a secondary of the same instant
 							key = "secondary-started-after-same-instant-secondary-scheduled-a-primary"
+							if nodes[b].Parent >= 0 && st.time[nodes[b].Parent] == st.time[b] {
+								// b itself was scheduled during this instant: it was not a
+								// sibling already dispatched with the scheduling secondary,
+								// it belongs to a later round, which runs primaries first
+								key = "secondary-scheduled-during-the-instant-started-before-a-primary-of-the-instant"
+							}
 						}
 						bad(key, "secondary %d started at instant %d while primary %d (already scheduled) had not finished", b, st.time[b], a)
 					}
